@@ -6,6 +6,30 @@ V = os.path.dirname(os.path.dirname(os.path.abspath(__file__)))
 
 # id -> (category, technique, level text, level note, design ref)
 CHECKS = {
+ "C01": ("exploration", "content-oracle monitor (every byte = F(stream, offset)) at every Recv/Read return over seeded hostile network simulations in virtual time, at raw-core and session level",
+   "Held on the executions produced: thousands of seeded scenarios of real cores and real sessions over a scripted lossy/duplicating/reordering network with a byte-exact oracle at every read. Reaches fate sequences, configurations and read/write size patterns the suite never samples; not a proof.",
+   "testing/synctest virtual time; Go scheduler picks the interleavings inside one virtual instant; trusted: harness content function and network model", "DESIGN.md §3 C01"),
+ "C02": ("fault_enumeration", "exhaustive enumeration (by running) of the fates of the first K datagrams + sampled outage profiles, bounded-progress oracle in virtual time",
+   "Every assignment of {deliver, drop, duplicate, late} to the first K datagrams x 16 configurations is executed on the real cores, then the network is fair and completion is demanded within a bound derived from the protocol's timers; plus sampled long transfers/outages. Liveness is restated as bounded progress; a wedge exceeds any bound.",
+   "bound T is generous, not tight; beyond K and the sampled profiles nothing is claimed", "DESIGN.md §3 C02"),
+ "C03": ("exploration", "stalled-reader simulations with targeted loss of WASK/WINS/ACK datagrams; content oracle + window monitors + bounded resumption in virtual time",
+   "Held on the executions produced; evidence counts scenarios that really reached the zero-window state and the probes seen on the wire.",
+   "finite pause and finite loss period; virtual-time bound as C02", "DESIGN.md §3 C03"),
+ "C04": ("exploration", "invariant monitors at hook points (output callback, admission hook H3, after every event) under window-edge and adversarial forged traffic",
+   "Invariants are recomputed by the monitor from the core's fields at the only points where the admission decision is observable; traffic includes a forging adversary. Held on what was executed.",
+   "monitors read internal fields (in-package harness); window sizes fixed before traffic", "DESIGN.md §3 C04"),
+ "C07": ("exploration", "reference-model oracle over exhaustively enumerated arrival orders of small FEC groups (run on the real encoder/decoder) plus sampled large groups and neighbour interleavings",
+   "All subsets x orders of every group up to the bound are executed against the real decoder with a byte-exact model; larger groups and interleavings sampled.",
+   "klauspost/reedsolomon trusted; recency bound as stated in assumptions", "DESIGN.md §3 C07"),
+ "C08": ("exploration", "differential testing against crypto/cipher CFB / x/crypto / stdlib GCM references, exhaustive over length x cipher x aliasing, canary buffers; shared-instance workload under the Go race detector",
+   "Every length 0..1500 for every cipher in both aliasing modes is compared with an independent reference (exhaustive in those dimensions, sampled in key/content).",
+   "reference implementations trusted", "DESIGN.md §3 C08"),
+ "C12": ("exploration", "metamorphic trace comparison (base vs shifted sequence numbers / clock) on deterministic single-goroutine simulations; FEC and autotune wrap cases against the C07 oracle",
+   "Deterministic replays make the normalised traces comparable byte for byte, so any dependence on absolute sn/clock values inside the explored scenarios is visible.",
+   "offsets sampled around 2^31/2^32 and random; scenarios sampled", "DESIGN.md §3 C12"),
+ "C18": ("exploration", "wire monitor counting transmissions per sn on generated clean paths satisfying the property's precondition; RTO-bound assertion after every event under forged acknowledgements",
+   "Held on the clean-path scenarios generated (precondition enforced by construction) and on every simulation for the RTO bound.",
+   "precondition margins >= 2 ms of virtual time", "DESIGN.md §3 C18"),
  "C20": ("exploration",
    "lock-step reference model (slice queue) over bounded-exhaustive and random operation sequences, slot-hygiene assertion on internal layout",
    "Every operation sequence up to the stated depth from a family of initial layouts is executed on the real RingBuffer next to a slice model and compared after every step (bounded-exhaustive), plus long random sequences through all growth regimes; this is the natural level for a small deterministic data structure: any FIFO/hygiene defect reachable within the bound is found, beyond it only sampled.",
